@@ -225,3 +225,15 @@ Proof.
   rewrite FE. unfold img, A, d'. apply restart_write; assumption.
 Qed.
 End Q.
+
+(* ---------- degenerate snapshots.  Nothing above assumes a non-empty delta: the smallest blob is the empty delta
+   (a snapshot byte-identical to snapshot 0): END field only, blen = 16, 28 bytes with its trailer.  The walk follows
+   offset_next > 0, and offset_next = blen >= 16 for every blob, so it passes empty deltas. *)
+Lemma small_d_nil : forall c, small_d c [].
+Proof. intros c. split; [constructor|]. vm_compute. reflexivity. Qed.
+
+Lemma blen_ge16 : forall d, 16 <= blen d.
+Proof. intros. unfold blen. lia. Qed.
+
+Lemma blen_nil : blen [] = 16.
+Proof. reflexivity. Qed.
